@@ -271,43 +271,68 @@ fn compile_output_block(
     Ok(output)
 }
 
+/// The quantities minted and burned of an asset are aggregated over all the blocks; the net
+/// total must still fit the ledger's signed 64-bit quantity.
+fn check_mint_total(parts: &[primitives::Multiasset<primitives::NonZeroInt>]) -> Result<(), Error> {
+    let mut totals: BTreeMap<(primitives::PolicyId, Vec<u8>), i128> = BTreeMap::new();
+
+    for part in parts {
+        for (policy, names) in part.iter() {
+            for (name, amount) in names.iter() {
+                *totals.entry((*policy, name.to_vec())).or_default() += i64::from(*amount) as i128;
+            }
+        }
+    }
+
+    if totals.values().any(|x| i64::try_from(*x).is_err()) {
+        return Err(Error::CoerceError(
+            "aggregated mint quantity".to_string(),
+            "64-bit quantity".to_string(),
+        ));
+    }
+
+    Ok(())
+}
+
+fn compile_mint_blocks(
+    blocks: &[tir::Mint],
+    is_burn: bool,
+) -> Result<Vec<primitives::Multiasset<primitives::NonZeroInt>>, Error> {
+    let mut out = vec![];
+
+    for block in blocks {
+        let assets = coercion::expr_into_assets(&block.amount)?;
+
+        // asset arithmetic drops the classes whose amount is zero: an amount that comes out
+        // of it as nothing at all is a zero mint just like a literal zero
+        if assets.is_empty() {
+            return Err(Error::CoerceError(
+                "0".to_string(),
+                "non-zero mint quantity".to_string(),
+            ));
+        }
+
+        for asset in assets.iter() {
+            out.push(compile_native_asset_for_mint(asset, is_burn)?);
+        }
+    }
+
+    Ok(out)
+}
+
 fn compile_mint_block(tx: &tir::Tx) -> Result<Option<primitives::Mint>, Error> {
     if tx.mints.is_empty() && tx.burns.is_empty() {
         return Ok(None);
     }
 
-    let mints: Vec<_> = tx
-        .mints
-        .iter()
-        .map(|x| coercion::expr_into_assets(&x.amount))
-        .collect::<Result<Vec<_>, _>>()?
-        .iter()
-        .flatten()
-        .map(|x| compile_native_asset_for_mint(x, false))
-        .collect::<Result<Vec<_>, _>>()?;
+    let mints = compile_mint_blocks(&tx.mints, false)?;
+    let burns = compile_mint_blocks(&tx.burns, true)?;
 
-    let mints = asset_math::aggregate_assets(mints);
+    let parts: Vec<_> = mints.into_iter().chain(burns).collect();
 
-    let burns = tx
-        .burns
-        .iter()
-        .map(|x| coercion::expr_into_assets(&x.amount))
-        .collect::<Result<Vec<_>, _>>()?
-        .iter()
-        .flatten()
-        .map(|x| compile_native_asset_for_mint(x, true))
-        .collect::<Result<Vec<_>, _>>()?;
+    check_mint_total(&parts)?;
 
-    let burns = asset_math::aggregate_assets(burns);
-
-    let all = match (mints, burns) {
-        (Some(mints), Some(burns)) => asset_math::aggregate_assets([mints, burns]),
-        (Some(mints), None) => Some(mints),
-        (None, Some(burns)) => Some(burns),
-        (None, None) => None,
-    };
-
-    Ok(all)
+    Ok(asset_math::aggregate_assets(parts))
 }
 
 fn compile_inputs(tx: &tir::Tx) -> Result<Vec<primitives::TransactionInput>, Error> {
